@@ -579,15 +579,20 @@ class HttpProxyPlugin(HttpProtocolHandlerPlugin):
                     'Connecting to upstream %s:%d' %
                     (text_(host), port),
                 )
+                # IPv6 literals carry their brackets in the request-target,
+                # the socket layer expects the bare address.
+                connect_host = text_(host)
+                if connect_host.startswith('[') and connect_host.endswith(']'):
+                    connect_host = connect_host[1:-1]
                 if self.flags.enable_conn_pool:
                     assert self.upstream_conn_pool
                     with self.lock:
                         created, self.upstream = self.upstream_conn_pool.acquire(
-                            (text_(host), port),
+                            (connect_host, port),
                         )
                 else:
                     created, self.upstream = True, TcpServerConnection(
-                        text_(host), port,
+                        connect_host, port,
                     )
                     # Connect with overridden upstream IP and source address
                     # if any of the plugin returned a non-null value.
